@@ -435,7 +435,7 @@ func runScenario(t *tape.Tape, cfg sim.Config, listen bool) (res sim.Result) {
 	fmt.Fprintf(os.Stderr, "C07 scenario (engine %s): %+v\n", cfg.Engine, sc)
 	// in a third of the scenarios the cycle also calls WASI sched_yield: code that uses the module's
 	// system context while the module is closed under it
-	guestWASI = t.Chance(1, 3)
+	guestWASI = t.Chance(1, 3) && !listen // (the listened runs belong to C20: the WASI finding is recorded under C07)
 	defer func() { guestWASI = false }()
 	if guestWASI {
 		res.Stat("probe.cycle_calls_wasi", 1)
